@@ -350,6 +350,18 @@ def _pre_include(held, out):
   _try(out, world.dflt)
 
 
+def _pre_printer_fails(held, out):
+  # imports recorded by two successful parses that the printer cannot re-process together (a dynamic-registration
+  # text and a legacy text importing a gin module): config_str() / operative_config_str() fail - a failed
+  # operation inside the parse-context machinery - before the clear
+  _try(out, lambda: gin.parse_config(_DYN))
+  _try(out, lambda: gin.parse_config('import gin.config\nvw.dflt.a = 1\n'))
+  _try(out, world.dflt)
+  _try(out, gin.config_str)
+  _try(out, gin.operative_config_str)
+  _try(out, lambda: gin.query_parameter('vw.dflt.a'))
+
+
 PRES = [
     ('nothing', lambda held, out: None),
     ('parsed text, macros, reference, all evaluated; objects held', _pre_parsed),
@@ -369,6 +381,7 @@ PRES = [
     ('singleton created through a reference', _pre_singleton_ref),
     ('unlock_config rebinding after finalize', _pre_unlock_rebind),
     ('nested include fails halfway (in-memory files)', _pre_include),
+    ('config_str() fails on the recorded imports (dynamic registration + import gin.config)', _pre_printer_fails),
 ]
 NPRE = len(PRES)
 P_CONFLICT, P_ADDHOOK, P_INCLUDE = 13, 14, 17
@@ -701,7 +714,7 @@ def _explain(a, b):
 
 def c20_life(pre: int, how: int, h2: int, clear_constants: bool) -> bool:
   """
-  pre: 0 <= pre < 18
+  pre: 0 <= pre < 19
   pre: 0 <= how < 7
   pre: 0 <= h2 < 12
   """
